@@ -10,7 +10,7 @@ C01 — SPECIFICATION layer of the object-level round trip (no proofs of the pro
   * `embDepth`   embedded-object nesting depth
   * `toyCodec`   a concrete instance showing `CodecOk` is satisfiable
 
-Proofs: Proofs/Lemmas/CimXml1.lean … CimXml12.lean; property theorems: Proofs/Props/C01.lean.
+Proofs: Proofs/Lemmas/CimXml1.lean … CimXml15.lean (13–14: the decoder is blind to text chunking, imported by 6; 15: the wire delivers normTree); property theorems: Proofs/Props/C01.lean.
 -/
 import Pywbem.Model.CimDefaults
 
@@ -25,11 +25,30 @@ open Pywbem.Model Pywbem.Model.XmlText Pywbem.Proto
 structure Spec where
   /-- strings `CIMDateTime(s)` accepts and prints back unchanged (the canonical 25-character forms) -/
   validDt : Str → Prop
-  /-- embedded instances whose `tocimxml().toxml()` text the XML parser re-reads as the same tree
-      ("wire-stable": non-empty texts of XML characters without CR, attribute values without TAB/LF/CR) -/
+  /-- embedded instances whose `tocimxml().toxml()` text the XML parser re-reads as the same tree up to
+      text chunking ("wire-stable": texts of XML characters without CR, attribute values without TAB/LF/CR) -/
   embInstOk : Inst → Prop
   /-- the same for embedded classes -/
   embClsOk : Cls → Prop
+
+/-! ### the tree as the SAX handler delivers it -/
+
+/-- pending character data becomes one text child, none if empty (CIMContentHandler.characters never
+    creates an empty node and appends to a preceding text node) -/
+def flushT (p : Str) (r : List Xml) : List Xml := if p = [] then r else .text p :: r
+
+mutual
+/-- a tree up to text chunking: in every child list adjacent text children are merged and empty ones
+    dropped.  `<VALUE></VALUE>` arrives without a text child; the decoder (which reads text through
+    `pcdata`, the join of all text children) cannot tell the difference — Proofs/Lemmas/CimXml13.lean. -/
+def normTree : Xml → Xml
+  | .text s => .text s
+  | .elem n as ks => .elem n as (normKids [] ks)
+def normKids (p : Str) : List Xml → List Xml
+  | [] => flushT p []
+  | .text s :: ks => normKids (p ++ s) ks
+  | .elem n as kk :: ks => flushT p (normTree (.elem n as kk) :: normKids [] ks)
+end
 
 /-- hypotheses about the third-party conversions -/
 structure CodecOk (C : DecCodec) (S : Spec) : Prop where
@@ -47,9 +66,13 @@ structure CodecOk (C : DecCodec) (S : Spec) : Prop where
   /-- `CIMDateTime(s)` of a canonical datetime string is that string -/
   dt_ok : ∀ s, S.validDt s → C.parseDt s = some s
   /-- XmlSyntax hypothesis of DESIGN.md §7, for the text of embedded objects: expat re-reads what
-      minidom printed as the same element tree -/
-  par_inst : ∀ i, S.embInstOk i → C.par (Xml.ser (encInstElem C.toCodec i)) = some (encInstElem C.toCodec i)
-  par_cls : ∀ c, S.embClsOk c → C.par (Xml.ser (encCls C.toCodec c)) = some (encCls C.toCodec c)
+      minidom printed as the same element tree up to text chunking (`normTree`: an empty string value
+      `<VALUE></VALUE>` comes back without a text child).  Discharged for the concrete parser
+      `XmlParse.par` in Proofs/Props/C01.lean (`C01_par_fields_discharged`). -/
+  par_inst : ∀ i, S.embInstOk i → ∃ t', C.par (Xml.ser (encInstElem C.toCodec i)) = some t' ∧
+    normTree t' = normTree (encInstElem C.toCodec i)
+  par_cls : ∀ c, S.embClsOk c → ∃ t', C.par (Xml.ser (encCls C.toCodec c)) = some t' ∧
+    normTree t' = normTree (encCls C.toCodec c)
 
 /-! ### names -/
 
